@@ -668,7 +668,19 @@ def r48(orig, rule):
     return '{ let mut __v: Vec<%s> = Vec::new(); let mut __i = %s.len(); while __i > 0 { __i -= 1; let %s = &%s[__i]; __v.push(%s); } __v }' % (ty, x, a, x, f)
 
 
+def r49(orig, rule):
+    # X.iter().collect()   (tail expression; X has an `iter()` whose Iterator::next is under contract; element type T from the rule argument)
+    #   ->  { let mut __v: Vec<T> = Vec::new(); let mut __it = X.iter(); loop { match __it.next() { Some(__x) => { __v.push(__x); } None => { break; } } } __v }
+    #   (collect into a Vec pushes the items in the order next() yields them, until None)
+    s = norm(orig)
+    ty = rule.split(None, 1)[1]
+    m = _m(r'(.+?) \. iter \( \) \. collect \( \)', s)
+    x = m.group(1)
+    return '{ let mut __v: Vec<%s> = Vec::new(); let mut __it = %s.iter(); loop { match __it.next() { Some(__x) => { __v.push(__x); } None => { break; } } } __v }' % (ty, x)
+
+
 GENERATORS = {
+    'R49': r49,
     'R48': r48,
     'R46': r46, 'R47': r47,
     'R44': r44, 'R45': r45,
